@@ -300,7 +300,41 @@ func (g *Gen) base() *Base { return g.Bases[g.R.Pick(8, 1, 1)] }
 
 func (g *Gen) blobInput(b *Base, class string, toc []byte) Input {
 	blob, ext := b.Assemble(toc)
-	return Input{Class: class, Kind: "blob", Data: blob, ExtTOC: ext, Note: b.Comp}
+	return Input{Class: class, Kind: "blob", Data: blob, ExtTOC: ext, Note: b.Comp, TOC: compactTOC(toc, b)}
+}
+
+// compactTOC: the TOC text for reports, without the untouched entries of the base blob when the
+// text is long (entries that differ from the base are what matters).
+func compactTOC(toc []byte, b *Base) string {
+	if len(toc) <= 1600 {
+		return string(toc)
+	}
+	var doc struct {
+		Entries []json.RawMessage `json:"entries"`
+	}
+	if json.Unmarshal(toc, &doc) != nil {
+		return string(toc)
+	}
+	base := map[string]bool{}
+	for _, e := range b.Entries {
+		j, _ := json.Marshal(e)
+		base[string(j)] = true
+	}
+	var diff []string
+	for _, e := range doc.Entries {
+		var v any
+		dec := json.NewDecoder(bytes.NewReader(e))
+		dec.UseNumber()
+		if dec.Decode(&v) != nil {
+			diff = append(diff, string(e))
+			continue
+		}
+		j, _ := json.Marshal(v)
+		if !base[string(j)] {
+			diff = append(diff, string(j))
+		}
+	}
+	return "(entries differing from the valid base blob) [" + strings.Join(diff, ",") + "]"
 }
 
 // advNumbers: adversarial numbers around the given bounds and the int64 limits.
@@ -819,6 +853,10 @@ func (g *Gen) Fixed() (out, late []Input) {
 		markMust(g.blobInput(gz, "fixed:588493d:hardlink-cycle", tocText(1, []Ent{E("a", "hardlink", "linkName", "b"), E("b", "hardlink", "linkName", "a")}))),
 		markMust(g.blobInput(gz, "fixed:588493d:hardlink-to-parent-dir", tocText(1, []Ent{E("d/", "dir"), E("d/x", "hardlink", "linkName", "d")}))),
 	)
+	out[len(out)-1].MustErrDB = true // a0e1c6d: the db store refuses hardlinks to directories too
+	// f3cca50: hardlink whose source is used as a directory (non-directory ancestor)
+	out = append(out, markMust(g.blobInput(gz, "fixed:f3cca50:hardlink-source-with-children",
+		tocText(1, []Ent{E("a", "reg"), E("a/b", "reg"), E("a/b/c", "hardlink", "linkName", "a")}))))
 	// 42545b8: negative chunk size (opens fine; the read must fail with an error, not panic)
 	ents := cloneEnts(gz.Entries)
 	if i := entIdx(ents, "d/a.txt"); i >= 0 && i+1 < len(ents) {
